@@ -36,6 +36,7 @@ pub fn run(r: &mut Report) {
     run_step_before_after(r);
     run_step_content_oracle(r);
     run_step_output_bytes(r);
+    digest_routine(r);
 }
 
 /// independent oracle: every regular file reachable under `root` (following symlinks to files and directories, never entering a
@@ -230,4 +231,40 @@ fn run_step_output_bytes(r: &mut Report) {
             Err(p) => (format!("panic: {}", p), false) };
         r.case("byproducts-are-the-output-bytes", json!({"output": id}), if representable { "Ok with exactly the bytes written" } else { "Err, or Ok with exactly the bytes written" }, obs, ok);
     }
+}
+
+/// the digest routine itself, called directly: any reader (whole, one byte at a time, irregular chunks, interrupted reads) over any
+/// size around the block boundaries gives the standard digests and the exact size; an empty algorithm list is refused
+fn digest_routine(r: &mut Report) {
+    use in_toto::crypto::calculate_hashes;
+    struct Chunky<'a> { data: &'a [u8], pos: usize, pattern: &'a [usize], k: usize, interrupt_every: usize, calls: usize }
+    impl<'a> std::io::Read for Chunky<'a> {
+        fn read(&mut self, buf: &mut [u8]) -> std::io::Result<usize> {
+            self.calls += 1;
+            if self.interrupt_every > 0 && self.calls % self.interrupt_every == 0 { return Err(std::io::Error::new(std::io::ErrorKind::Interrupted, "interrupted")); }
+            let want = self.pattern[self.k % self.pattern.len()].max(1); self.k += 1;
+            let n = want.min(buf.len()).min(self.data.len() - self.pos);
+            buf[..n].copy_from_slice(&self.data[self.pos..self.pos + n]); self.pos += n; Ok(n)
+        }
+    }
+    let mut bad: Vec<String> = vec![]; let mut n = 0;
+    for size in [0usize, 1, 63, 64, 65, 4095, 4096, 4097, 8191, 8192, 8193, 65536, 100_003] {
+        let data: Vec<u8> = (0..size).map(|i| (i * 31 % 251) as u8).collect();
+        for (pid, pattern, intr) in [("whole", vec![usize::MAX], 0usize), ("one-byte", vec![1], 0), ("irregular", vec![7, 1, 4096, 3, 8192, 100], 0), ("interrupted", vec![1000], 3)] {
+            for algs in [vec![HashAlgorithm::Sha256], vec![HashAlgorithm::Sha512], vec![HashAlgorithm::Sha256, HashAlgorithm::Sha512], vec![HashAlgorithm::Sha512, HashAlgorithm::Sha256, HashAlgorithm::Sha256]] {
+                n += 1;
+                let rd = Chunky { data: &data, pos: 0, pattern: &pattern, k: 0, interrupt_every: intr, calls: 0 };
+                let got = no_panic(|| calculate_hashes(rd, &algs));
+                let ok = match &got { Ok(Ok((sz, hs))) => *sz == size as u64 && algs.iter().all(|a| hs.get(a).map(|v| v.value().to_vec()) == Some(match a {
+                        HashAlgorithm::Sha256 => ring::digest::digest(&ring::digest::SHA256, &data).as_ref().to_vec(), _ => ring::digest::digest(&ring::digest::SHA512, &data).as_ref().to_vec() }))
+                        && hs.len() == algs.iter().collect::<std::collections::HashSet<_>>().len(),
+                    // std's contract lets a caller retry an Interrupted read; refusing the input instead is not a wrong digest
+                    Ok(Err(_)) => pid == "interrupted", Err(_) => false };
+                if !ok && bad.len() < 5 { bad.push(format!("size {} reader {} algs {:?}: {:?}", size, pid, algs, got.as_ref().map(|x| x.as_ref().map(|(s, h)| (*s, h.len())).map_err(|e| e.to_string())))); }
+            }
+        }
+    }
+    r.case("digest-routine-any-reader", json!({"calls": n}), "standard digests and exact size from every reader", format!("{:?}", bad), bad.is_empty());
+    let empty = no_panic(|| calculate_hashes(&b"abc"[..], &[]));
+    r.case("digest-routine-empty-algorithm-list", json!({}), "Err", format!("{:?}", empty.as_ref().map(|x| x.as_ref().map(|_| "Ok").map_err(|e| e.to_string()))), matches!(&empty, Ok(Err(_))));
 }
